@@ -416,7 +416,14 @@ def check_step(sched, step, pre, post, r):
         s0 = pre.get(cfg + '/' + sname)
         s1 = post.get(cfg + '/' + sname)
         if s0 is not None and (s1 is None or not s1.startswith(s0)):
-            bad('RO', cfg + '/' + sname, 'rewritten (old bytes are not a prefix)')
+            # a requested migration may fill in a `merchants_file:` key that had no value where it stands; every other line stays
+            import re as _re
+            empty_key = _re.compile(rb'^[ \t]*merchants_file[ \t]*:[ \t]*(null|~|""|\'\')?[ \t]*(#.*)?\r?$')
+            old_lines = [ln for ln in s0.split(b'\n') if not empty_key.match(ln) and ln.strip()]
+            it = iter((s1 or b'').split(b'\n'))
+            kept = s1 is not None and len(old_lines) < len([ln for ln in s0.split(b'\n') if ln.strip()]) and all(any(x == y for y in it) for x in old_lines)
+            if not kept:
+                bad('RO', cfg + '/' + sname, 'rewritten (old bytes are not a prefix)')
         # a requested migration may replace rule files, but never lose what the user had in them: every pre-existing
         # rules / backup file content must still be the content of some file (the original is "kept as a backup")
         have = set(c_ for c_ in post.values() if c_ is not None)
